@@ -257,3 +257,26 @@ def _(v):
     # opposite direction: the second written backwards can be ADDED the same number of times
     e2r = Equilibrium({"C": c2}, {"A": a2}, 1 / 3.0, checks=())
     v.prove("reversed_partner_is_added", v.call(e1.cancel, e2r) == m)
+
+
+@harness("C11", "degenerate_and_inactive", functions=[CH + ":Equilibrium.__rmul__", CH + ":Equilibrium.__mul__", CH + ":Equilibrium.__neg__", CH + ":Equilibrium.__add__", CH + ":Equilibrium.__sub__"], kind="data")
+def _(v):
+    """corners of the algebra on the real objects: a combination whose net stoichiometry is empty (0*e, e - e, e + reverse(e)) is refused with
+    ValueError, never returned as an equilibrium with some left-over species or a constant other than 1; kinetically inactive participants are
+    scaled with the reaction and change sides with it"""
+    from chempy.chemistry import Equilibrium
+    e = Equilibrium({"A": 1, "B": 2}, {"C": 3}, 10.0, inact_reac={"S": 1})
+    rev = Equilibrium({"C": 3}, {"A": 1, "B": 2}, 0.1)
+    outcomes = []
+    for label, f in (("0*e", lambda: 0 * e), ("e*0", lambda: e * 0), ("e-e", lambda: e - e), ("e+rev", lambda: e + rev)):
+        try:
+            r = f()
+            outcomes.append((label, dict(r.reac), dict(r.prod), r.param))
+        except ValueError:
+            pass
+        except Exception as ex:
+            outcomes.append((label, repr(ex)))
+    v.prove("empty_net_stoichiometry_refused", not outcomes, detail=repr(outcomes))
+    two, neg = 2 * e, -e
+    v.prove("inactive_parts_scaled_and_moved_with_the_reaction", dict(two.inact_reac) == {"S": 2} and not two.inact_prod and dict(neg.inact_prod) == {"S": 1} and not neg.inact_reac
+            and dict((-3 * e).inact_prod) == {"S": 3}, detail=repr((two.inact_reac, neg.inact_prod)))
